@@ -459,6 +459,8 @@ def with_knob(plan_text, knob, value):
 def twin_compare(plan_text):
     """run one plan in three fresh processes (different flavour, fill pattern, environment size); returns (ok, detail)"""
     outs = []
+    if "\nknob ladder.cut " not in plan_text:
+        plan_text = with_knob(plan_text, "ladder.cut", "1458")   # one replica is the slow GMP-on-malloc flavour (props.arm)
     for k, (fl, fill) in enumerate(TWIN_VARIANTS):
         text = with_knob(plan_text, "mem.fill", fill)
         if k == 1:
